@@ -745,6 +745,9 @@ class Interp:
                 r = Or(*[M.scalar_cmp("Eq", a, x) for x in b])
                 return r if op == "In" else Not(r)
             raise Unsupported("membership test")
+        if op in ("Is", "IsNot") and (a is None or b is None or is_arr_like(a) or is_arr_like(b)):
+            r = a is b
+            return r if op == "Is" else not r
         if is_arr_like(a) or is_arr_like(b):
             return M.array_cmp(op, a, b, lineno)
         if isinstance(a, (str, tuple, list)) and isinstance(b, (str, tuple, list)) and not (isinstance(a, str) and len(a) == 1 and is_sym(b)):
@@ -862,7 +865,7 @@ class Interp:
         def at(i):
             ci = conc(i)
             if isinstance(ci, int):
-                return xs[ci]
+                return xs[ci] if 0 <= ci < n else 0       # total: out-of-range reads are guarded by the caller's range condition
             r = I(xs[-1]) if n else z3.IntVal(0)
             for j in range(n - 2, -1, -1):
                 r = z3.If(I(i) == j, I(xs[j]), r)
@@ -940,6 +943,8 @@ class Interp:
             if obj.has(name):
                 return obj.get(name)
             cls = obj._cls
+            if name == "__class__":
+                return cls
             if cls is not None:
                 h = self.class_models.get((cls, name))
                 if h is not None:
